@@ -66,8 +66,8 @@ func ruleT2(c *Ctx, id string) {
 	}
 	// who may call LockInode: GetInodeLocked only
 	for _, cs := range P.CallersOf(V.LockInode) {
-		if !IsRepoFunc(cs.Caller) {
-			continue
+		if !IsRepoFunc(cs.Caller) || V.LockInode == V.GetInodeLocked {
+			continue // (no separate LockInode in this tree: the acquirer rules speak about GetInodeLocked)
 		}
 		R.Check(cs.Caller == V.GetInodeLocked, id, FuncName(cs.Caller)+"|calls LockInode", P.Pos(cs.Instr.Pos()), "LockInode is called only by GetInodeLocked (which records the inode in the transaction)", "owner", "an inode locked without being recorded is never released")
 	}
@@ -152,14 +152,14 @@ func ruleT3(c *Ctx, id string) {
 	lo := c.fn(id, "nfs.lookupOrdered")
 	vr := c.fn(id, "nfs.validateRename")
 	lookup := c.fn(id, "dir.LookupName")
-	twoInums := c.fn(id, "nfs.twoInums")
-	if lo == nil || vr == nil || lookup == nil || twoInums == nil || V.lockInodes == nil {
+	twoInums := P.Func("nfs.twoInums") // (a two-element slice builder; a tree may write the literal instead)
+	if lo == nil || vr == nil || lookup == nil || V.lockInodes == nil {
 		return
 	}
 	R.Analysed[FuncName(lo)] = true
 	R.Analysed[FuncName(vr)] = true
 	// twoInums stores its parameters at their own positions
-	{
+	if twoInums != nil {
 		ok := true
 		cnt := 0
 		for _, b := range twoInums.Blocks {
@@ -184,14 +184,14 @@ func ruleT3(c *Ctx, id string) {
 		R.Fail(id, "nfs.lookupOrdered|one bulk acquisition", P.Pos(lo.Pos()), "lookupOrdered acquires through one lockInodes call", fmt.Sprintf("%d calls", len(lcalls)))
 	} else {
 		L := lcalls[0].(*ssa.Call)
-		tc, _ := argN(L, 1).(*ssa.Call)
-		if tc == nil || tc.Call.StaticCallee() != twoInums {
-			R.Undecided(id, "nfs.lookupOrdered|numbers", P.Pos(L.Pos()), "the numbers are built by twoInums", "unrecognised construction of the inum slice")
+		numArgs := sliceElems(argN(L, 1), twoInums)
+		if numArgs == nil {
+			R.Undecided(id, "nfs.lookupOrdered|numbers", P.Pos(L.Pos()), "the numbers are built by twoInums or a slice literal", "unrecognised construction of the inum slice")
 		} else {
 			// position of the handle-derived number
 			hpos, npos := -1, -1
 			var hparam, nparam *ssa.Parameter
-			for i, a := range tc.Call.Args {
+			for i, a := range numArgs {
 				if f, ok := stripConv(a).(*ssa.Field); ok {
 					if pm, ok := f.X.(*ssa.Parameter); ok && fieldNameOfValue(f) == "Ino" {
 						hpos, hparam = i, pm
@@ -205,7 +205,7 @@ func ruleT3(c *Ctx, id string) {
 			}
 			if hparam == nil {
 				// struct param passed by value is spilled: &parent.Ino load
-				for i, a := range tc.Call.Args {
+				for i, a := range numArgs {
 					if u, ok := stripConv(a).(*ssa.UnOp); ok && u.Op == token.MUL {
 						if fa, ok := u.X.(*ssa.FieldAddr); ok && fieldNameAt(fa) == "Ino" {
 							if al, ok := fa.X.(*ssa.Alloc); ok {
@@ -458,7 +458,7 @@ func ruleT3(c *Ctx, id string) {
 				// every mutating call between the relock and the loop exit sits under the true edge
 				for _, in := range P.CallsIn(ren, func(f *ssa.Function) bool {
 					n := f.Name()
-					return (relPkg(f) == "dir" && (n == "RemName" || n == "AddName" || n == "IsDirEmpty")) || n == "doDecLink"
+					return (relPkg(f) == "dir" && (n == "RemName" || n == "AddName" || n == "IsDirEmpty")) || n == "doDecLink" || f == V.DecLink
 				}) {
 					if !reachableFrom(vc, in) || !reachableFrom(in, vc) {
 						continue // outside the retry loop body after validate
@@ -591,7 +591,7 @@ func ruleSlot(c *Ctx, id string) {
 							continue
 						}
 						want := V.LockInode
-						if owner == drop {
+						if owner == drop || V.LockInode == V.GetInodeLocked {
 							want = look
 						}
 						if okD, m := derivesOnlyFrom(sc.S.resolve(stripConv(base)), funcIs(want), 0); okD && m > 0 {
@@ -801,7 +801,7 @@ func ruleColdRead(c *Ctx, id string) {
 						continue
 					}
 					top := topInstr(scopes, psc, pr.call)
-					locked := top.Parent() == V.GetInodeLocked && MustBefore(V.GetInodeLocked, NewAlwaysInstr(P, callTo(V.LockInode)))(top)
+					locked := top.Parent() == V.GetInodeLocked && MustBefore(V.GetInodeLocked, NewAlwaysInstr(P, callTo(V.LockAcquire)))(top)
 					R.Check(locked, id, "fstxn.GetInodeLocked|cold read under the inode lock", P.Pos(pr.call.Pos()), "the inode is read after LockInode returned, on every path", "must-precede", "the inode is read before its lock is held: a request that waits for the lock decodes what it read before the holder changed and committed the inode, and installs that stale copy as the cached inode - the holder's update is lost")
 				}
 			}
@@ -811,4 +811,65 @@ func ruleColdRead(c *Ctx, id string) {
 	if n == 0 {
 		R.Fail(id, "fstxn.GetInodeLocked|cold read from the committed state", P.Pos(V.GetInodeLocked.Pos()), "GetInodeLocked decodes the inode with inode.Decode", "no call of inode.Decode found in GetInodeLocked or its helpers: the rule cannot tell where a cold inode comes from")
 	}
+}
+
+// sliceElems: the elements, by position, of a small slice built in place:
+// builder(a, b) (a positional two-element builder such as twoInums), a
+// composite literal []T{a, b}, or make([]T, n) followed by stores at constant
+// indices.  nil when the construction is not recognised.
+func sliceElems(v ssa.Value, builder *ssa.Function) []ssa.Value {
+	v = stripConv(v)
+	if cl, ok := v.(*ssa.Call); ok {
+		if builder != nil && cl.Call.StaticCallee() == builder {
+			return cl.Call.Args
+		}
+		return nil
+	}
+	var root ssa.Value = v
+	if sl, ok := v.(*ssa.Slice); ok {
+		root = stripConv(sl.X)
+	}
+	switch root.(type) {
+	case *ssa.Alloc, *ssa.MakeSlice:
+	default:
+		return nil
+	}
+	elems := map[int64]ssa.Value{}
+	max := int64(-1)
+	for _, base := range []ssa.Value{root, v} {
+		for _, r := range refs(base) {
+			ia, ok := r.(*ssa.IndexAddr)
+			if !ok {
+				continue
+			}
+			k, isk := constInt(ia.Index)
+			if !isk {
+				return nil
+			}
+			for _, r2 := range refs(ia) {
+				if st, ok := r2.(*ssa.Store); ok && st.Addr == ssa.Value(ia) {
+					if _, dup := elems[k]; dup {
+						return nil
+					}
+					elems[k] = st.Val
+					if k > max {
+						max = k
+					}
+				}
+			}
+		}
+	}
+	if max < 0 {
+		return nil
+	}
+	out := make([]ssa.Value, max+1)
+	for k, e := range elems {
+		out[k] = e
+	}
+	for _, e := range out {
+		if e == nil {
+			return nil
+		}
+	}
+	return out
 }
